@@ -460,9 +460,115 @@ static void run_local_add(void)
 	xp_state(hash_mix((uint64_t)org * 16 + (uint64_t)listener, (uint64_t)fi * 2 + (uint64_t)lo));
 }
 
+/* ---- section 3: accounts whose password member is not the complete hash of any password ------------------------------------
+ * Locked accounts ("*", "!"), accounts without a password (""), a salt without a hash, a hash that lost its last character or
+ * gained one, a hash in another case: nobody can authenticate as them, whatever is offered - in particular not the stored
+ * string itself, the empty string or libcrypt's failure tokens.  Reference: an attempt succeeds iff crypt(attempt, stored)
+ * is exactly the stored string (computed here with the system's libcrypt).  A refused attempt grants nothing. */
+static void run_degenerate_accounts(void)
+{
+	static char full[128], cut[128], longer[128], upper[128];
+	snprintf(full, sizeof(full), "%s", crypt("PWMARK-real-77", "$1$saltfull$"));
+	snprintf(cut, sizeof(cut), "%s", full);
+	cut[strlen(cut) - 1] = 0;
+	snprintf(longer, sizeof(longer), "%sA", full);
+	snprintf(upper, sizeof(upper), "%s", full);
+	for (char *c = upper + 12; *c; c++) {
+		if (*c >= 'a' && *c <= 'z') {
+			*c = (char)(*c - 32);
+		}
+	}
+	const char *const STORED[] = {full, "*", "!", "", "x", "$1$saltonly$", "$6$QieAoprju2Gf$", "ab", cut, longer, upper, "*0", "$1$"};
+	static const char *const STOREDN[] = {"complete hash", "'*'", "'!'", "empty", "'x'", "md5 salt without hash", "sha512 salt without hash", "two-character DES salt", "hash without its last character", "hash with one more character", "hash in upper case", "'*0'", "'$1$'"};
+	const int NST = (int)(sizeof(STORED) / sizeof(STORED[0]));
+	int k = xp_choose(NST, XP_SCENARIO, "stored-password-member");
+	const char *const ATTEMPTS[] = {"PWMARK-real-77", "PWMARK-guess-00", "", "*", "*0", "*1", STORED[k], "x"};
+	const int NAT = (int)(sizeof(ATTEMPTS) / sizeof(ATTEMPTS[0]));
+	int a = xp_choose(NAT, XP_SCENARIO, "offered-password");
+	int tr = xp_choose(NTR, XP_SCENARIO, "transport");
+	snprintf(what, sizeof(what), "account whose password member is %s, offered password #%d, %s peer", STOREDN[k], a, TRN[tr]);
+	struct bytebuf b = {0};
+	char hadm[128];
+	snprintf(hadm, sizeof(hadm), "%s", crypt("PWMARK-delta-44", "$1$saltadm0$"));
+	char *sj = NULL;
+	{
+		cJSON *j = cJSON_CreateString(STORED[k]);
+		sj = cJSON_PrintUnformatted(j);
+		cJSON_Delete(j);
+	}
+	bb_printf(&b, "{\"users\":{\"adm\":{\"password\":\"%s\",\"admin\":true,\"auth\":{\"fetchGroups\":[\"g1\"],\"setGroups\":[\"g1\"],\"callGroups\":[\"g1\"]}},\"victim\":{\"password\":%s,\"admin\":true,\"auth\":{\"fetchGroups\":[\"g1\"],\"setGroups\":[\"g1\"],\"callGroups\":[\"g1\"]}}}}", hadm, sj);
+	bb_append(&b, "", 1);
+	free(sj);
+	struct sim_opts o = {0};
+	o.passwd_file = (char *)b.p;
+	if (!sim_boot(&o)) {
+		xp_count("daemon_refused_to_start", 1); /* refusing such a file is a clean answer too */
+		xp_transition();
+		xp_state(hash_mix((uint64_t)k, 998));
+		xp_end_run();
+	}
+	O = jx_open(CL_RAW);
+	jx_sendf(O, "{\"id\":\"oa\",\"method\":\"authenticate\",\"params\":{\"user\":\"adm\",\"password\":\"PWMARK-delta-44\"}}");
+	jx_sendf(O, "{\"id\":\"o1\",\"method\":\"add\",\"params\":{\"path\":\"secret\",\"value\":1,\"access\":{\"fetchGroups\":[\"g1\"],\"setGroups\":[\"g1\"]}}}");
+	jx_settle();
+	if (!jx_is_success(jx_find_response_str(O, "o1", 0))) {
+		fail8("setup-failed", "the owner could not add the protected state");
+	}
+	P = open_peer(tr);
+	char *aj = NULL;
+	{
+		cJSON *j = cJSON_CreateString(ATTEMPTS[a]);
+		aj = cJSON_PrintUnformatted(j);
+		cJSON_Delete(j);
+	}
+	jx_sendf(P, "{\"id\":\"pa\",\"method\":\"authenticate\",\"params\":{\"user\":\"victim\",\"password\":%s}}", aj);
+	free(aj);
+	jx_settle();
+	struct cl_msg *r = jx_find_response_str(P, "pa", 0);
+	if (r == NULL) {
+		fail8("authenticate-not-answered", "no response");
+	}
+	const char *h = crypt(ATTEMPTS[a], STORED[k]);
+	bool expect = h != NULL && strcmp(h, STORED[k]) == 0;
+	bool authed = jx_is_success(r);
+	char key[160];
+	if (authed && !expect) {
+		snprintf(key, sizeof(key), "authenticate-accepted:stored-member-is-no-hash-of-the-offered-password:%s", k == 0 ? "complete-hash" : "degenerate-member");
+		fail8(key, "the attempt was answered with success although crypt(offered, stored) is %s%s%s, not the stored member", h ? "'" : "", h ? h : "NULL", h ? "'" : "");
+	}
+	if (!authed && expect) {
+		fail8("authenticate-refused:right-password", "the right password of a complete hash was refused");
+	}
+	int from = clients[P].nmsgs, fo = clients[O].nmsgs;
+	jx_sendf(P, "{\"id\":\"pg\",\"method\":\"get\",\"params\":{}}");
+	jx_sendf(P, "{\"id\":\"ps\",\"method\":\"set\",\"params\":{\"path\":\"secret\",\"value\":2}}");
+	jx_sendf(P, "{\"id\":\"pf\",\"method\":\"fetch\",\"params\":{\"id\":\"f\"}}");
+	jx_settle();
+	struct cl_msg *g = jx_find_response_str(P, "pg", from);
+	bool sees = g != NULL && g->cls == MC_RESULT && cJSON_GetArraySize(cJSON_GetObjectItemCaseSensitive(g->json, "result")) > 0;
+	bool routed = false, notified = false;
+	for (int i = fo; i < clients[O].nmsgs; i++) {
+		routed |= clients[O].msgs[i].cls == MC_ROUTED;
+	}
+	for (int i = from; i < clients[P].nmsgs; i++) {
+		notified |= clients[P].msgs[i].cls == MC_NOTIFY;
+	}
+	if ((sees || routed || notified) && !expect) {
+		fail8("refused-authentication-grants-access", "after the refused attempt the peer %s", sees ? "gets the protected state" : routed ? "may set the protected state" : "is notified about the protected state");
+	}
+	xp_count(expect ? "attempts_that_must_succeed" : "attempts_that_must_fail", 1);
+	xp_nontrivial();
+	xp_transition();
+	xp_outcome((uint64_t)authed * 4 + (uint64_t)sees * 2 + (uint64_t)routed);
+	xp_state(hash_mix((uint64_t)k * 64 + (uint64_t)a, (uint64_t)tr + 500));
+}
+
 static void run(void)
 {
 	switch (xp_param("section", 0)) {
+	case 3:
+		run_degenerate_accounts();
+		break;
 	case 1:
 		run_group_limit();
 		break;
@@ -478,6 +584,6 @@ const struct driver drv_c08 = {
     .name = "c08",
     .property = "C08",
     .run = run,
-    .rule = "section 0: credential file with 6 users (group sets over g1..g3, auth objects that omit keys, an admin, a user without groups); 15 elements declaring fetch/set/call groups {none, g1, g2, g1+g2, mixed fetch/set, g3, an undefined group, fetch only, call only}; every sequence up to the depth bound of 10 authenticate actions (right, wrong password, another user's password, unknown user, six users) x 3 transports x 5 fill bytes of fresh heap memory x {probe suite only at the end, also before the last action}; probe suite = fetch all + get all + the owner adding / changing / removing four further elements while the fetch is active + set every state + call every method; oracle: everything delivered / routed is covered by the groups of the last successful authentication (none if there was none), wrong credentials are refused, sequences with failing attempts grant exactly what the twin without them grants, password markers occur in no output byte and no log line; section 1: files with 30..33 groups x user group x element group over {0,1,15,29,30,31} x transport (bit 31 and beyond); section 2: add from 11 connection origins on the 3 listeners x fill bytes in the local-only build; non-trivial = all runs",
+    .rule = "section 0: credential file with 6 users (group sets over g1..g3, auth objects that omit keys, an admin, a user without groups); 15 elements declaring fetch/set/call groups {none, g1, g2, g1+g2, mixed fetch/set, g3, an undefined group, fetch only, call only}; every sequence up to the depth bound of 10 authenticate actions (right, wrong password, another user's password, unknown user, six users) x 3 transports x 5 fill bytes of fresh heap memory x {probe suite only at the end, also before the last action}; probe suite = fetch all + get all + the owner adding / changing / removing four further elements while the fetch is active + set every state + call every method; oracle: everything delivered / routed is covered by the groups of the last successful authentication (none if there was none), wrong credentials are refused, sequences with failing attempts grant exactly what the twin without them grants, password markers occur in no output byte and no log line; section 1: files with 30..33 groups x user group x element group over {0,1,15,29,30,31} x transport (bit 31 and beyond); section 2: add from 11 connection origins on the 3 listeners x fill bytes in the local-only build; section 3: an account whose password member is one of 13 forms (complete hash, '*', '!', empty, 'x', salts without hash, DES salt, hash cut / extended by one character, upper-cased hash, libcrypt failure tokens) x 8 offered passwords (the real one, a guess, empty, '*', '*0', '*1', the stored member itself, 'x') x 3 transports: success iff crypt(offered, stored) equals the stored member, a refused attempt grants neither get, fetch nor set; non-trivial = all runs",
     .assumptions = "only the safety direction of the statement is judged (a grant must be covered by a group); denied accesses are counted, not judged|a credential file with more than 32 groups may be refused at start-up",
 };
